@@ -8,8 +8,7 @@ EXPLANATION = ('Spans are right if preprocessing preserves length and every unit
                'symbolic match/result intervals obeying the regex contract.')
 ASSUMPTIONS = ['regex finditer contract for the stubbed match intervals', 'percentage patterns never start/end strictly inside a number token',
                'bounded source length and match count per obligation']
-OUTSIDE = ['which intervals the real patterns produce on a sentence', 'phone prefix re-spanning, '
-           'merged date-time modifier strip/restore (not built)', 'CJK-specific extractors', 'strings longer than 2 characters for the symbolic preprocess check']
+OUTSIDE = ['which intervals the real patterns produce on a sentence', 'phone prefix re-spanning (not built)', 'CJK-specific extractors', 'strings longer than 2 characters for the symbolic preprocess check']
 S = 'harness.spans:'
 MODELS = ['number', 'unit', 'sequence', 'phone', 'datetime', 'choice']
 
@@ -46,6 +45,22 @@ def obligations(tier):
            encodes=['recognizers_number.number.models:AbstractNumberModel.parse', 'recognizers_number_with_unit.number_with_unit.models:AbstractNumberWithUnitModel.parse',
                     'recognizers_sequence.sequence.models:AbstractSequenceModel.parse', 'recognizers_date_time.date_time.models:DateTimeModel.parse',
                     'recognizers_choice.choice.models:ChoiceModel.parse']),
+        Ob('O1.7-modifier-restore', 'sx', 'harness.modparse:h_mod_restore', timeout=t,
+           slices=[{'text': tx, 'body': 'xx', 'mod': m, 'dtype': d} for d in ('date', 'datetime', 'time') for tx, m in (
+               ('before xx', 'before'), ('after  xx', 'after'), ('since xx', 'since'), ('around xx', 'approx'), ('before around xx', 'before-approx'),
+               ('no later than xx', 'before'), ('as late as xx', 'until'), ('until xx', 'before'), ('prior to the xx', 'before'), ('later than xx', 'after'),
+               ('starting from xx', 'since'), ('xx', ''))] +
+                  [{'text': 'xx or later', 'body': 'xx', 'mod': 'since', 'dtype': d} for d in ('date', 'time')],
+           descr='BaseMergedParser.parse strips a modifier, parses the rest at a consistent sub-span, and restores start/length/text of the whole entity; the modifier is reported',
+           bounds='entity start offset 0..200 symbolic; one slice per modifier phrase x entity type (real English modifier regexes on the concrete phrase; inner parser stubbed)',
+           encodes=['recognizers_date_time.date_time.base_merged:BaseMergedParser.parse', 'recognizers_text.utilities:RegExpUtility.match_begin',
+                    'recognizers_text.utilities:RegExpUtility.match_end', 'recognizers_date_time.date_time.base_merged:BaseMergedParser.combine_mod']),
+        Ob('O1.7-add-mod', 'sx', 'harness.modparse:h_add_mod', timeout=t,
+           slices=[{'phrase': ph} for ph in ('before', 'no later than', 'after', 'since', 'around', 'prior to', 'until')] + [{'phrase': ph, 'suffix': 1} for ph in ('or later', 'and later', 'or above')],
+           descr='BaseMergedExtractor.add_mod widens the entity exactly over the modifier phrase (before or after it): span in range, text = slice, has_mod set',
+           bounds='0..6 filler characters in front, 0..4 behind, 1..2 blanks between phrase and entity (enumerated through the solver); real English modifier regexes',
+           encodes=['recognizers_date_time.date_time.base_merged:BaseMergedExtractor.add_mod', 'recognizers_date_time.date_time.base_merged:BaseMergedExtractor.try_merge_modifier_token',
+                    'recognizers_date_time.date_time.base_merged:BaseMergedExtractor.has_token_index']),
         Ob('O1.8-witness', 'fn', 'harness.witness:api_witness', slices=[{'w': 'F2'}], timeout=t, finding='F2', descr='API witness of F2 (empty entity)'),
     ]
     return obs
